@@ -570,7 +570,7 @@ func init() {
 		Run: func(r *mc.Report, e *Env) {
 			r.Rule = "BFS: every transition is one event applied to a fresh real Table (running loop, stub transport, scripted random source, virtual clock) reached by replaying its history; the structural invariants are evaluated on a snapshot of every state reached; concurrent part: every interleaving (bounded preemptions) of API calls against the loop at lock, channel and random-draw gates; distinct = distinct canonical table states / schedule outcomes"
 			nb := len(c07Units(e.Thorough())) * c07Shards
-			if e.Of <= 1 || e.Shard < nb {
+			if (e.Of <= 1 || e.Shard < nb) && freeRuns == 0 {
 				c07Explore(r, e, "C07")
 			}
 			if e.Of <= 1 || e.Shard >= nb {
